@@ -81,7 +81,7 @@ def run(ctx, env):
     from . import consume as _cons
     _cons.partial_output_rule(ctx, prog, an, "R5.10", lambda b: b.path.startswith(("variable_versions::ipfix::", "variable_versions::data_number::")))
     ctx.rule("R5.11", "the records a decoder reports are made by that decode alone: every element added to the reported collection derives from the input slice, and the collection itself is created by the call - not the drained / taken content of storage kept in the parser object (a reusable buffer that a failed decode leaves half-filled would surface in a later packet) (shared with C02 R2.10)")
-    _cons.foreign_rule(ctx, prog, an, "R5.11", lambda b: b.path.startswith(("variable_versions::ipfix::", "variable_versions::data_number::")), floor=1)
+    _cons.foreign_rule(ctx, prog, an, "R5.11", lambda b: b.path.startswith(("variable_versions::ipfix::", "variable_versions::data_number::")), floor=0)
     # R5.9
     ctx.rule("R5.9", "integers are decoded by DataNumber::parse: (width, signedness) -> a big-endian primitive of exactly that width and the like-named variant, sign-extended for signed kinds, without a narrowing cast; unsupported widths are rejected (shared with C04 R4.6: the IPFIX and V9 decoders use the same table)")
     from . import c04 as _c04
